@@ -408,22 +408,12 @@ def check_case(c):
 
 
 def classify(c, detail=None):
-    """classifier of the open findings: BOM-emitting codec on the manual (binary) path"""
-    if c.get("enc") != "utf-8-sig" or "payload" not in c:
-        return None
-    k = c["payload"]["k"]
-    if not is_binary_path(c["mode"], c["eol"], k) or k == "bytes":
-        return None
-    if detail is not None and "durability" in detail:
-        return None
-    if k == "lines":
-        return "C15-b" if c["payload"]["v"] else None
-    if c["mode"].startswith("a") and c.get("pre") is not None:
-        return "C15-a"
+    """classifier of the open findings: none is open (C15-a / C15-b - a BOM written by every str.encode call on the
+    manual path - are repaired by fixes/C15-a.patch; the model follows the repaired code)"""
     return None
 
 
-CLASSIFIERS = {"bom_on_manual_path_append": "C15-a", "bom_per_piece_list": "C15-b"}
+CLASSIFIERS = {}
 
 
 def valid_case(c):
